@@ -228,9 +228,10 @@ pub fn run(ctx: &Ctx) -> Verdict {
         let info = check(&cell_scenario(cell))?;
         Ok(CaseInfo { nontrivial: cell.situation != "matched" || cell.partial, classes: info.classes })
     }));
-    let n = ctx.tier.pick(40_000, 800_000);
+    let n = ctx.tier.pick(200_000, 5_000_000);
     v.subs
         .push(vcore::run_proptest(ctx, "random", n, gen::scenario(cfg(include)), check));
+    v.subs.extend(super::variant_reports(ctx, &["nostd-spin"]));
     v
 }
 
